@@ -35,6 +35,61 @@ from mujoco_warp._src.set_const import set_length_range as set_length_range
 wp.set_module_options({"default_grid_stride": False})
 
 
+@wp.kernel
+def _reset_history(
+  # Model:
+  nu: int,
+  nsensor: int,
+  opt_timestep: wp.array[float],
+  actuator_history: wp.array[wp.vec2i],
+  actuator_historyadr: wp.array[int],
+  sensor_dim: wp.array[int],
+  sensor_history: wp.array[wp.vec2i],
+  sensor_historyadr: wp.array[int],
+  sensor_interval: wp.array[wp.vec2],
+  # In:
+  reset_in: wp.array[bool],
+  # Data out:
+  history_out: wp.array2d[float],
+):
+  """Sets delay/interval history buffers to their initial state (as mj_resetData does)."""
+  worldid = wp.tid()
+
+  if not reset_in[worldid]:
+    return
+
+  timestep = opt_timestep[worldid % opt_timestep.shape[0]]
+
+  # buffer layout: user, cursor, times (nsample), values (nsample * dim)
+  for i in range(nu):
+    nsample = actuator_history[i][0]
+    if nsample > 0:
+      adr = actuator_historyadr[i]
+      history_out[worldid, adr] = 0.0
+      history_out[worldid, adr + 1] = float(nsample - 1)
+      for j in range(nsample):
+        history_out[worldid, adr + 2 + j] = -float(nsample - j) * timestep
+        history_out[worldid, adr + 2 + nsample + j] = 0.0
+
+  for i in range(nsensor):
+    nsample = sensor_history[i][0]
+    if nsample > 0:
+      adr = sensor_historyadr[i]
+      period = sensor_interval[i][0]
+      phase = sensor_interval[i][1]
+      if period <= 0.0:
+        period = timestep
+        phase = -period
+      elif phase >= 0.0:
+        phase = -period
+      history_out[worldid, adr] = phase
+      history_out[worldid, adr + 1] = float(nsample - 1)
+      for j in range(nsample):
+        history_out[worldid, adr + 2 + j] = phase - float(nsample - 1 - j) * period
+      for j in range(nsample * sensor_dim[i]):
+        history_out[worldid, adr + 2 + nsample + j] = 0.0
+
+
 def _create_array(data: Any, spec, sizes: dict[str, int], batch_size: int = 1) -> wp.array | None:
   """Creates a warp array and populates it with data.
 
@@ -1883,6 +1938,25 @@ def make_data(
   d.dof_cdof.fill_(-1)
   d.cdof_dof.fill_(-1)
 
+  if mjm.nhistory > 0:
+    wp.launch(
+      _reset_history,
+      dim=nworld,
+      inputs=[
+        mjm.nu,
+        mjm.nsensor,
+        wp.array([mjm.opt.timestep], dtype=float),
+        wp.array(mjm.actuator_history, dtype=wp.vec2i),
+        wp.array(mjm.actuator_historyadr, dtype=int),
+        wp.array(mjm.sensor_dim, dtype=int),
+        wp.array(mjm.sensor_history, dtype=wp.vec2i),
+        wp.array(mjm.sensor_historyadr, dtype=int),
+        wp.array(mjm.sensor_interval, dtype=wp.vec2),
+        wp.ones(nworld, dtype=bool),
+      ],
+      outputs=[d.history],
+    )
+
   warp_util.mark_batched(d)
   return d
 
@@ -2789,6 +2863,25 @@ def reset_data(m: types.Model, d: types.Data, reset: Optional[wp.array] = None):
       d.overflow,
     ],
   )
+
+  if m.nhistory > 0:
+    wp.launch(
+      _reset_history,
+      dim=d.nworld,
+      inputs=[
+        m.nu,
+        m.nsensor,
+        m.opt.timestep,
+        m.actuator_history,
+        m.actuator_historyadr,
+        m.sensor_dim,
+        m.sensor_history,
+        m.sensor_historyadr,
+        m.sensor_interval,
+        reset_input,
+      ],
+      outputs=[d.history],
+    )
 
   if sleep_enabled:
     sleep.update_sleep(m, d)
